@@ -9,7 +9,8 @@ from vk import refmodel as rm
 from vk.build import pack_bp, unpack_bp
 
 ID = 'C12'
-RULE = ('Part tables (exhaustive): every operator (NOT/BUF with 1 operand; AND/OR/XOR with k=1..4 operands) in the formats bp8v, bp4v, '
+RULE = ('(zero-dimensional operands on either side are part of the arrays part) ' +
+        'Part tables (exhaustive): every operator (NOT/BUF with 1 operand; AND/OR/XOR with k=1..4 operands) in the formats bp8v, bp4v, '
         'mv (public 2-operand functions, nested for k>2; the private n-ary array kernels are not called directly), on ALL 8^k (4^k for the 4-valued operators) operand '
         'tuples; one enumerated case = (format, operator, k, first operand) and covers all tuples with that first operand, evaluated '
         'packed side by side in lanes and again one tuple alone. Oracle: independent abstract algebra; Boolean restriction; De Morgan. '
@@ -119,7 +120,7 @@ def prop_tables(case):
 
 # ---------------------------------------------------------------------------------------------
 
-SHAPES = st.lists(st.integers(1, 4), min_size=1, max_size=4).map(tuple)
+SHAPES = st.sampled_from([0, 1, 1, 1, 2, 2, 2, 3, 3, 4]).flatmap(lambda n: st.lists(st.integers(1, 4), min_size=n, max_size=n)).map(tuple)      # () = zero-dimensional array
 
 
 @st.composite
@@ -129,10 +130,14 @@ def array_cases(draw, tier):
     # broadcasting: second operand drops leading dims / has size-1 dims
     shape2 = list(shape)
     bmode = draw(st.integers(0, 3))
-    if bmode == 1:
-        shape2 = shape2[draw(st.integers(0, len(shape2) - 1)):]
-    elif bmode == 2:
+    if bmode == 1 and shape2:
+        shape2 = shape2[draw(st.integers(0, len(shape2))):]          # may drop all dimensions: a zero-dimensional second operand
+    elif bmode == 2 and shape2:
         j = draw(st.integers(0, len(shape2) - 1)); shape2[j] = 1
+    elif bmode == 3 and draw(st.booleans()):
+        shape, shape2 = tuple(shape2), list(shape)
+        shape2 = list(draw(SHAPES)) if not shape else shape2
+        shape = ()                                                   # zero-dimensional first operand against any second operand
     n1 = int(np.prod(shape)); n2 = int(np.prod(shape2))
     alpha = st.integers(0, 7)
     a = draw(st.lists(alpha, min_size=n1, max_size=n1))
@@ -159,7 +164,7 @@ def prop_arrays(case):
         raise Violation(f'mv_{op}(out=...) returned a different array than the caller-supplied one')
     if r.shape != bshape:
         raise Violation(f'mv_{op}: result shape {r.shape} != broadcast shape {bshape}')
-    a1 = np.broadcast_to(x1c, bshape); a2 = np.broadcast_to(x2c, bshape)
+    a1 = np.broadcast_to(x1c, bshape); a2 = np.broadcast_to(x2c, bshape) if op != 'not' else None
     for idx in np.ndindex(*bshape):
         t = (int(a1[idx]),) if op == 'not' else (int(a1[idx]), int(a2[idx]))
         e = ref_op(op, t)
@@ -181,6 +186,8 @@ def prop_arrays(case):
             raise Violation(f'bp8v_{op} and mv_{op} disagree on arrays of shape {x1.shape}')
     labels = [op, 'out_' + case['out'], f'ndim{len(bshape)}']
     if x1.shape != x2.shape and op != 'not': labels.append('broadcast')
+    if x1.ndim == 0: labels.append('first_operand_0d')
+    if x2.ndim == 0 and op != 'not': labels.append('second_operand_0d')
     nontrivial = any(v not in (0, 3) for v in case['a'])
     return Obs(nontrivial, labels, checks=int(np.prod(bshape)))
 
